@@ -37,6 +37,17 @@ def main():
                 if r0.returncode != 0:
                     print(f"SKIP {m['name']}: patch does not apply: {r0.stdout[-200:]}")
                     bad += 1
+                    # patch(1) may have applied some hunks: restore every file the patch names from the tree under test
+                    for pl in open(pf).read().splitlines():
+                        if pl.startswith("+++ "):
+                            rel = pl[4:].split("\t")[0].strip()
+                            rel = rel[2:] if rel.startswith(("a/", "b/")) else rel
+                            srcp = os.path.join("/repo", rel)
+                            if os.path.exists(srcp):
+                                shutil.copy(srcp, os.path.join(dst, rel))
+                            for junk in (os.path.join(dst, rel) + ".rej", os.path.join(dst, rel) + ".orig"):
+                                if os.path.exists(junk):
+                                    os.remove(junk)
                     continue
                 env = dict(os.environ, VERIF_REPO=dst, VERIF_NO_REPLAY_SEARCH="1")
                 cmd = [os.path.join(ROOT, "check"), m["prop"], "--no-evidence"]
